@@ -164,7 +164,7 @@ SPECS = {
         assumptions=["spec of 'command': top-level fn of a selected file with an attribute path tauri::command or command"],
         rule="random projects of 1..5 files in nested directories (120 quick / 1500 thorough, each in both modes, with 5 configuration variants): commands with value / injected (12 spellings) / channel (3 spellings) parameters, serde structs / enums with attributes, validators, events at every documented placement and receiver form, helper functions, impl blocks and inline modules with command-looking functions, decoys under target/ and .git/, unparsable and empty files; a *safe* stream (2/3) stays inside the property's input domain, an *adversarial* stream (1/3) aims at the known exclusion classes; non-trivial = project with at least one command; distinct = hash of (IR, configuration)", exhaustive={"quick": False, "thorough": False},
         partial=["C03_commands_exactly_statement: the discovered commands are exactly the statement's, for every project whose absolute path has no target/.git component (C03_filter_is_statement); K03a is exactly the failure of that hypothesis"]),
-    "C07": dict(pre_lake=_regen, groups=["project"], only_oracles=["c07_declared_exactly_reachable"], excluded_classes=['unsupportedType', 'undefinedNamedType', 'undocumentedItemShape', 'duplicateTypeNames', 'duplicateCommandNames', 'K18a_mappedAndDefined', 'K01a_reservedOrIllegalFnName'], theorems="Typegen.Theorems.C07",
+    "C07": dict(pre_lake=_regen, groups=["project"], only_oracles=["c07_declared_exactly_reachable", "c07_verbose_same_analysis"], excluded_classes=['unsupportedType', 'undefinedNamedType', 'undocumentedItemShape', 'duplicateTypeNames', 'duplicateCommandNames', 'K18a_mappedAndDefined', 'K01a_reservedOrIllegalFnName'], theorems="Typegen.Theorems.C07",
         trusted_base=[LEAN_TB, HARNESS_TB,
                       "project-level tie: the harness renders a project IR to Rust source files, runs the real CommandAnalyzer + generators on them and hands the IR (annotated with the token text proc_macro2 prints for every attribute and the generic tree of every type) to the Lean model; compared: the whole analysis (commands, parameters, channels, events, discovered types, dependency sets) and the text of all four generated files modulo whitespace and the header comment",
                       "modelled, not verified: syn (the IR is what syn hands to the analysers), walkdir, tera (templates transcribed by hand, validated by the text comparison), proc_macro2 Display"],
